@@ -200,7 +200,9 @@ static void c03_check(cbor_item_t* it, const rnode* shadow) {
   uint8_t* out = malloc(cap);
   memset(out, 0x5e, cap);
   VH_POISON(out, cap);
+  vh_ambient_scramble(vh_hash(want.p, want.n) >> 5); /* stale errno, rounding mode, FTZ/DAZ: the bytes are a function of the tree */
   size_t w = cbor_serialize(it, out, cap);
+  vh_ambient_restore();
   if (w && w <= cap) { long u = VH_UNINIT_AT(out, w); if (u >= 0) vh_violation("serialized-uninitialised-memory", "byte %ld of the %zu serialized bytes comes from uninitialised memory", u, w); }
   VH_UNPOISON(out, cap);
   if (w != want.n || memcmp(out, want.p, want.n)) {
